@@ -1004,7 +1004,8 @@ coap_op_dyn_resource_added(coap_session_t *session,
 
   (void)user_data;
 
-  fp_orig = fopen((const char *)context->dyn_resource_save_file->s, "a");
+  /* Create the file if it is not there yet, the current entries get read */
+  fp_orig = fopen((const char *)context->dyn_resource_save_file->s, "a+");
   if (fp_orig == NULL)
     return 0;
 
